@@ -141,6 +141,25 @@ pub fn gen_int(rng: &mut Rng) -> IntVal {
     }
 }
 
+/// integers with the maximal number of characters of their type (MIN / MAX and neighbours)
+pub fn gen_long_int(rng: &mut Rng) -> IntVal {
+    let d = rng.below(3);
+    match rng.below(12) {
+        0 => IntVal::I8(i8::MIN + (d as i8) * 9),
+        1 => IntVal::I16(i16::MIN + d as i16),
+        2 => IntVal::I32(i32::MIN + d as i32),
+        3 => IntVal::I64(i64::MIN + d as i64),
+        4 => IntVal::I128(i128::MIN + d as i128),
+        5 => IntVal::Isize(isize::MIN + d as isize),
+        6 => IntVal::U8(u8::MAX - (d as u8) * 50),
+        7 => IntVal::U16(u16::MAX - d as u16),
+        8 => IntVal::U32(u32::MAX - d as u32),
+        9 => IntVal::U64(u64::MAX - d),
+        10 => IntVal::U128(u128::MAX - d as u128),
+        _ => IntVal::Usize(usize::MAX - d as usize),
+    }
+}
+
 #[derive(Clone, Debug)]
 pub enum WOp {
     /// 0 = Write::write, 1 = Write::write_all, 2 = write_all_defer_err
@@ -151,6 +170,9 @@ pub enum WOp {
     Flush,
     FlushDefer,
     CheckIoError,
+    /// write exactly as many bytes as leave `spare` bytes of the buffer free (flushing first if
+    /// needed); puts the following operation right at the end of the buffer
+    FillSpare(usize),
 }
 
 pub fn gen_history(rng: &mut Rng, cap: usize, max_ops: usize) -> Vec<WOp> {
@@ -158,6 +180,23 @@ pub fn gen_history(rng: &mut Rng, cap: usize, max_ops: usize) -> Vec<WOp> {
     let style = rng.below(4);
     let mut ops = Vec::with_capacity(n);
     for _ in 0..n {
+        if rng.chance(1, 16) {
+            // boundary pair: leave 0..=45 spare bytes, then an operation that needs about that much
+            let spare = rng.usize(46);
+            ops.push(WOp::FillSpare(spare));
+            ops.push(match rng.below(4) {
+                0 | 1 => WOp::Int(gen_long_int(rng)),
+                2 => WOp::Bytes {
+                    api: rng.below(3) as u8,
+                    len: (spare + rng.usize(3)).saturating_sub(1),
+                },
+                _ => {
+                    let n = (spare + rng.usize(3)).saturating_sub(1);
+                    WOp::Ptr { n, m: n }
+                }
+            });
+            continue;
+        }
         let w = rng.below(100);
         let op = match w {
             0..=39 => {
@@ -228,6 +267,7 @@ pub struct RunResult {
     pub ptr_null: u64,
     pub int_types: u16,
     pub ops_done: usize,
+    pub boundary_fills: u64,
 }
 
 /// Apply `ops` to a fresh writer over a sink with `policy`; judge after every operation.
@@ -251,6 +291,7 @@ pub fn run_history(ops: &[WOp], policy: SinkPolicy, sink_seed: u64, cap: usize, 
     let (mut ptr_nonnull, mut ptr_null) = (0u64, 0u64);
     let mut int_types = 0u16;
     let mut ops_done = 0usize;
+    let mut boundary_fills = 0u64;
 
     // judge the sink events produced by one client operation
     let mut judge = |expected: &Vec<u8>,
@@ -426,6 +467,32 @@ pub fn run_history(ops: &[WOp], policy: SinkPolicy, sink_seed: u64, cap: usize, 
                     Err(_) => true,
                 }
             }
+            WOp::FillSpare(spare) => {
+                let r = sut_caught(|| {
+                    let mut b = match buffered_model {
+                        Some(b) if b + spare <= cap => b,
+                        _ => {
+                            wr.flush_defer_err();
+                            0
+                        }
+                    };
+                    let len = cap - b - (*spare).min(cap);
+                    let start = expected.len();
+                    let data: Vec<u8> = (start..start + len).map(ident_byte).collect();
+                    wr.write_all_defer_err(&data);
+                    b += len;
+                    (data, b)
+                });
+                match r {
+                    Ok((data, b)) => {
+                        expected.extend_from_slice(&data);
+                        buffered_model = Some(b);
+                        boundary_fills += 1;
+                        false
+                    }
+                    Err(_) => true,
+                }
+            }
             WOp::Flush => {
                 let r = sut_caught(|| wr.flush());
                 match r {
@@ -477,6 +544,10 @@ pub fn run_history(ops: &[WOp], policy: SinkPolicy, sink_seed: u64, cap: usize, 
                 WOp::Flush | WOp::FlushDefer => Some(0),
                 _ => None,
             };
+            if let WOp::FillSpare(_) = op {
+                // it flushed first (the model was unknown), so the buffer holds exactly what it wrote
+                // - unless the failure happened inside that very flush, which leaves the model unknown
+            }
             if matches!(op, WOp::Flush | WOp::FlushDefer) {
                 buffered_model = Some(0);
             }
@@ -578,6 +649,7 @@ pub fn run_history(ops: &[WOp], policy: SinkPolicy, sink_seed: u64, cap: usize, 
         ptr_null,
         int_types,
         ops_done,
+        boundary_fills,
     }
 }
 
@@ -719,6 +791,7 @@ impl Monitor for C11 {
             rep.count("ints_via_cold_path", r.cold_ints);
             rep.count("buf_write_ptr_nonnull", r.ptr_nonnull);
             rep.count("buf_write_ptr_null", r.ptr_null);
+            rep.count("boundary_fills", r.boundary_fills);
             for t in 0..12 {
                 if r.int_types & (1 << t) != 0 {
                     rep.inc(&format!("int_type:{}", crate::c13::TYPES[t]));
